@@ -317,7 +317,8 @@ def run_property(prop, tier, replay=None, only=None):
             if k in ("programs", "disagreements_checked"):
                 coverage[k] = coverage.get(k, 0) + v
     assumptions = sorted(set(sum((r.assumptions for r in results), [])))
-    write_evidence(prop, tier, spec["level"], coverage, assumptions, wall, len(violations))
+    if not only:  # `--only` is a debugging aid: never let a partial run overwrite the evidence
+        write_evidence(prop, tier, spec["level"], coverage, assumptions, wall, len(violations))
 
     for f in known_hits:
         print("KNOWN-FINDING: property=%s %s" % (prop, known_keys[(f.prop, f.key)].get("what", f.what)))
